@@ -140,6 +140,42 @@ def d5(ctx, prog):
     ctx.floor('dimension obligations (CPA/DPA)', n, 12)
 
 
+def d6(ctx, prog):
+    """degenerate entries: for a constant trace column (resp. constant data word) the variance term under each square root of the
+    CPA computations cancels *exactly* (sa.exact), so the entry is 0/0 or x/0 -> NaN after the inf mapping, never a finite
+    number produced by a rounding residue."""
+    from .. import exact
+    cpa = prog.need_mod('scared.distinguishers.cpa')
+    n = 0
+    for ci in cpa.classes and [prog.need_class('scared.distinguishers.cpa', c_) for c_ in cpa.classes]:
+        f = ci.methods.get('_compute')
+        if f is None or not ci.name.endswith('Mixin'):
+            continue
+        defs = astutil.local_defs(f.node)
+        sq = [c for c in ast.walk(f.node) if isinstance(c, ast.Call) and norm(c.func).split('.')[-1] == 'sqrt' and len(c.args) == 1]
+        for c in sq:
+            arg = astutil.expand_locals(c.args[0], defs)
+            reads = astutil.self_attrs_read(arg)
+            for kind, s1, s2 in (('trace sample', 'ex', 'ex2'), ('data word', 'ey', 'ey2')):
+                if not ({s1, s2} & reads):
+                    continue
+                n += 1
+                key = f'{f.key}::constant {kind}: `{norm(c.args[0])[:60]}`'
+                seeds = {'self.processed_traces': exact.V(1, 1, 0, exact.E), f'self.{s1}': exact.V(1, 1, 1, exact.E), f'self.{s2}': exact.V(1, 1, 2, exact.E)}
+                try:
+                    v = exact.evaluate(arg, seeds)
+                except exact.Unknown as e:
+                    ctx.undecided('C03-D6', key, f'cancellation for a constant column not derivable: {e}', f.where(c))
+                    continue
+                if v.st == exact.ZERO:
+                    ctx.ok('C03-D6', key, f'for a constant {kind} the term is exactly 0 (both sides are the same real value, exact or rounded once): the entry is NaN', f.where(c))
+                else:
+                    ctx.fail('C03-D6', key, f'for a constant {kind} (value c, n traces) the two sides of `{norm(c.args[0])[:70]}` are the same real number n c^2 but one of them is computed from an '
+                             f'already rounded intermediate (e.g. (n c)^2 before the division): the difference is a rounding residue, not 0, so the undefined entry comes out finite '
+                             f'instead of NaN (float32, n c large)', f.where(c))
+    return n
+
+
 def run(ctx, prog):
     ctx.rule('C03-D1', 'update flattens data to (n,-1) and remembers the shape; compute restores origin_shape[1:] + (-1,) when there was more than one word dimension')
     ctx.rule('C03-D2', 'every CPA/DPA _compute depending on a division maps inf -> NaN before returning')
@@ -148,6 +184,8 @@ def run(ctx, prog):
     from .. import universe as _uni
     _uni.inline_base_entry_points(ctx, prog)
     d1(ctx, prog)
+    ctx.rule('C03-D6', 'for a constant column the variance term under each CPA square root cancels exactly (exact / rounded-once abstraction over n, c): undefined entries are NaN, not rounding residues')
+    ctx.floor('CPA variance terms checked for exact cancellation', d6(ctx, prog), 4)
     n = d2(ctx, prog, 'C03-D2', {'scared.distinguishers.cpa', 'scared.distinguishers.dpa'})
     ctx.floor('_compute functions with divisions (CPA/DPA)', n, 3)
     # D4: all moments that enter the statistic are accumulated from the traces converted to the working precision
